@@ -114,11 +114,11 @@ WellFormedCell(c, kidCells, kidInfos) ==
 \* implementation bounds the depth inside its loop over the levels): a cell above a pruned branch whose stored depth is
 \* 1024 is too deep at the lower levels although its representation depth is 1.
 DepthsOK(inf) == \A k \in 1..4 : inf.d[k] <= MaxDepth
-ShapeOK2(T, I) == \A i \in 1..Len(T) :
+CellsShapeOK2(T, I) == \A i \in 1..Len(T) :
           WellFormedCell(T[i], [j \in 1..Len(T[i].r) |-> T[T[i].r[j]]], [j \in 1..Len(T[i].r) |-> I[T[i].r[j]]])
 \* well-formed but for the depth bound
-ShapeOK(T) == Topological(T) /\ ShapeOK2(T, InfoTable(T))
-WellFormed2(T, I) == ShapeOK2(T, I) /\ \A i \in 1..Len(T) : DepthsOK(I[i])
+CellsShapeOK(T) == Topological(T) /\ CellsShapeOK2(T, InfoTable(T))
+WellFormed2(T, I) == CellsShapeOK2(T, I) /\ \A i \in 1..Len(T) : DepthsOK(I[i])
 WellFormed(T) == Topological(T) /\ WellFormed2(T, InfoTable(T))
 \* the cells that do not exist because they, or a cell below them, are too deep (T topological: references point to later rows)
 Doomed2(T, I) == FoldLeft(LAMBDA acc, k : LET i == Len(T) - k + 1 IN
